@@ -216,6 +216,8 @@ func c13(w *core.World, r *core.Report) {
 	}
 
 	// ---- EVERY-ENTRY-WRITTEN
+	r.Rule("ELEM-APPEND-OWNED", 10, "(shared with C11) the paths of the updates a JSON blob of a sync notification is expanded to are extended on their own elements only (np.Elem = append(np.Elem, ...) on a clone): appending to the container path's elements makes the sibling leafs share one backing array, the running store then holds one leaf with another's value.")
+	ruleElemAppendOwned(w, r, "ELEM-APPEND-OWNED")
 	r.Rule("EVERY-ENTRY-WRITTEN", 2, "in storeSyncMsg whether a delete / update of a notification is written to the cache depends on failures only: every path from the start of a loop iteration to the next iteration passes the Modify call or an err != nil edge. A memo of 'already written' values, a filter on the value or any other skip makes the mirror miss what the device sent (e.g. the same value again after an ancestor was deleted).")
 	for i, vm := range core.VirtualCalls(store, core.CallArgs, core.CallsTo(store, kModify)) {
 		m := vm.At
@@ -1113,6 +1115,8 @@ func c15(w *core.World, r *core.Report) {
 		r.Check(ok, "OPERANDS", core.Site(run, "UNHANDLED decided by a read of the intended store"), w.InstrPos(s.call), "a running path is unhandled iff the intended store holds nothing for it; "+detail)
 	}
 	ruleEqualLeaflist(w, r)
+	r.Rule("EQUAL-LIKE-WITH-LIKE", 3, "utils.EqualTypedValues compares like with like: an == / != between the results of two argument-less getters of the same receiver type calls the same getter on both sides (identityref value / module / prefix, decimal64 digits / precision).")
+	ruleSameGetter(w, r, "EQUAL-LIKE-WITH-LIKE")
 	ruleLeafrefTarget(w, r)
 
 	// ---- EQUAL-EXACT
